@@ -58,7 +58,9 @@ def fcIsOk {ε α : Type} : Except ε α → Bool
   | .error _ => false
 
 mutual
-  /-- The two ways `to_string` fails on a tree: `MissingPrefix` from `element_fullname` (start
+  /-- The ways `to_string` fails on a tree: `MissingPrefix` for an element in no namespace where
+      a default namespace is in scope (checked right after the push, /repo a32c6f4),
+      `MissingPrefix` from `element_fullname` (start
       tag, and again on the end tag with the same stack) / `attribute_fullname`, and
       `NamespaceInProcessingInstruction`.  `StartTagOpen` pushes the element's declarations,
       `EndTag` pops them; text, comments, declarations never fail. -/
@@ -68,7 +70,8 @@ mutual
       | .element name =>
         let t := Tree.node v ks
         let s' := s.push t.nsDecls
-        fcIsOk (s'.elementFullname env name) &&
+        !(env.nsOfName name == Env.noNamespace && s'.hasDefaultNamespace) &&
+          fcIsOk (s'.elementFullname env name) &&
           (t.attrs.map (·.1)).all (fun a => fcIsOk (s'.attributeFullname env a)) &&
           writableList env s' ks
       | .pi target _ => (env.namespaceStr (env.nsOfName target)).isEmpty && writableList env s ks
